@@ -353,7 +353,8 @@ static bool do_ins(int x, Pos p, Arg ka, Arg va)
   if(need_val && !va.mode) return false;
   if(k == POOLLIST) {
     g_win = 1;
-    if(va.mode == 1) AS(TPL, x)->append<int>(va.z); else AS(TPL, x)->append<const V&>(*va.v);
+    // append(v) deduces `template<typename A> T& append(A a)` with A = V: a by-value parameter
+    if(va.mode == 1) AS(TPL, x)->append<int>(va.z); else AS(TPL, x)->append(*va.v);
     g_win = 0;
     return true;
   }
